@@ -5,12 +5,14 @@ BAD = ('raise', 'fail', 'none', 'notpair', 'badstatus', 'badupdate', 'triple')
 ALL = ('ok',) + BAD
 
 
-def cfg(n, edges, outcomes, workers, init=None, cyclic=False):
+def cfg(n, edges, outcomes, workers, init=None, cyclic=False, calls=1):
     out = {'n': n, 'edges': [list(e) for e in edges], 'outcomes': list(outcomes), 'workers': workers}
     if init:
         out['init'] = [list(i) for i in init]
     if cyclic:
         out['cyclic'] = True
+    if calls > 1:
+        out['calls'] = calls
     return out
 
 
